@@ -64,7 +64,10 @@ Definition slack : float := 0x1p-40%float.
 
 Definition in_bbox (pts : list (list float)) (c : list float) : bool :=
   forallb (fun j => let '(lo, hi) := col_minmax pts j in
-                    let w := PrimFloat.mul (PrimFloat.sub hi lo) slack in
+                    (* rounding slack: relative to the box width and to the magnitude of its ends
+                       (the float mean of equal values may differ from them in the last bits) *)
+                    let mag := if PrimFloat.ltb (PrimFloat.abs lo) (PrimFloat.abs hi) then PrimFloat.abs hi else PrimFloat.abs lo in
+                    let w := PrimFloat.add (PrimFloat.mul (PrimFloat.sub hi lo) slack) (PrimFloat.mul mag slack) in
                     let v := nth j c nan in
                     PrimFloat.leb (PrimFloat.sub lo w) v && PrimFloat.leb v (PrimFloat.add hi w))
           (seq 0 (length c)).
